@@ -38,6 +38,15 @@ func (sa *Safe) call(fr *frame, st *State, x *ssa.Call) {
 		sa.needNonNil(fr, st, recv, exprText(com.Value), x.Pos())
 		args = append(args, recv)
 	}
+	if !com.IsInvoke() {
+		// a call through a function value (table slot, field, parameter): calling nil panics
+		switch com.Value.(type) {
+		case *ssa.Function, *ssa.MakeClosure, *ssa.Builtin:
+		default:
+			fv := sa.val(fr, st, com.Value)
+			sa.needNonNil(fr, st, fv, exprText(com.Value), x.Pos())
+		}
+	}
 	for _, a := range com.Args {
 		args = append(args, sa.val(fr, st, a))
 	}
